@@ -1,0 +1,47 @@
+// Copyright 2026. Contracts for deductive verification (gowp).
+// This file contains only comments; it is compiled only with -tags verif
+// and adds nothing to the package.
+
+//go:build verif
+
+package vec
+
+// vec helpers (C09, C17, C20). Model real.
+
+//@ spec fsum(a []float64, k int) float64 = k <= 0 ? 0 : fsum(a, k-1) + a[k-1]
+
+//@ func Sum
+//@   model real
+//@   ensures [def] result == fsum(xs, len(xs))
+//@   loop 1 (x) invariant sum == fsum(xs, _k)
+//@   assigns nothing
+
+//@ func Map
+//@   model real
+//@   ensures [len]   len(result) == len(xs)
+//@   ensures [each]  forall i in 0..len(xs) :: result[i] == f(xs[i])
+//@   ensures [fresh] fresh(result)
+//@   loop 1 (i) invariant len(res) == len(xs) && fresh(res) && (forall j in 0..i :: res[j] == f(xs[j]))
+//@   assigns nothing
+
+//@ func Linspace
+//@   model real
+//@   requires num >= 0
+//@   ensures [len]   len(result) == num
+//@   ensures [one]   num == 1 ==> result[0] == lo
+//@   ensures [each]  num >= 2 ==> (forall i in 0..num :: result[i] == lo + i*(hi-lo)/(num-1))
+//@   ensures [fresh] fresh(result)
+//@   loop 1 (i) invariant 0 <= i && num != 1 && len(res) == num && fresh(res) && (forall j in 0..i :: res[j] == lo + j*(hi-lo)/(num-1))
+//@   assigns nothing
+
+//@ func Logspace
+//@   model real
+//@   requires num >= 0
+//@   ensures [len]   len(result) == num
+//@   ensures [one]   num == 1 ==> result[0] == pow(base, lo)
+//@   ensures [each]  num >= 2 ==> (forall i in 0..num :: result[i] == pow(base, lo + i*(hi-lo)/(num-1)))
+//@   ensures [fresh] fresh(result)
+//@   loop 1 (i) invariant len(res) == num && fresh(res) && (forall j in 0..i :: res[j] == pow(base, old_lin(lo, hi, num, j))) && (forall j in i..num :: res[j] == old_lin(lo, hi, num, j))
+//@   assigns nothing
+
+//@ spec old_lin(lo float64, hi float64, num int, j int) float64 = num == 1 ? lo : lo + j*(hi-lo)/(num-1)
